@@ -52,7 +52,7 @@ type entry struct {
 
 func (e entry) String() string {
 	t := map[byte]string{tar.TypeDir: "dir", tar.TypeReg: "file", tar.TypeSymlink: "symlink", tar.TypeLink: "hardlink", tar.TypeFifo: "fifo", tar.TypeChar: "chardev"}[e.typ]
-	s := fmt.Sprintf("%s %q mode=%04o", t, e.name, e.mode)
+	s := fmt.Sprintf("%s %q mode=%04o", t, strings.ReplaceAll(e.name, nulMark, "\x00"), e.mode)
 	if e.mtime.IsZero() {
 		s += " mtime=unset"
 	} else {
@@ -843,6 +843,16 @@ func features(s *sandbox, es []entry, pre map[string]byte) []string {
 	return out
 }
 
+// effName is the name archive/tar hands to the extractor: a USTAR name field
+// ends at the first NUL (names carried in PAX records with a NUL are rejected
+// by the reader, so nothing is extracted under them).
+func effName(n string) string {
+	if i := strings.Index(n, nulMark); i >= 0 {
+		return n[:i]
+	}
+	return n
+}
+
 // classify names the violation. The known deferred-chmod defect is recognised
 // by its exact signature: every change is a pure mode (or, when the mode is
 // the one the object already had, ctime) change of an object that
@@ -868,10 +878,10 @@ func classify(s *sandbox, es []entry, changes []change) string {
 				continue
 			}
 			for _, l := range es[i+1:] {
-				if l.typ != tar.TypeSymlink || l.name != d.name {
+				if l.typ != tar.TypeSymlink || effName(l.name) != effName(d.name) {
 					continue
 				}
-				op, isUnder := outPath(s, root, l.name)
+				op, isUnder := outPath(s, root, effName(l.name))
 				if !isUnder {
 					continue
 				}
